@@ -36,6 +36,22 @@ def _child(fn: Callable[[Any], Any], task: Any, wfd: int, timeout: float, dumppa
     code = 0
     try:
         _DEPTH += 1
+        # Never outlive the process that waits for us: a task killed by the wall-clock backstop must take the runs it
+        # forked itself (C08 and C01 fork one process per simulated run) with it, or a simulated program that spins
+        # would keep a core busy for ever.  First-level children lead their own process group (killed as a whole on
+        # timeout); every child additionally asks the kernel for SIGKILL when its parent dies.
+        try:
+            if _DEPTH == 1:
+                os.setpgid(0, 0)
+        except OSError:
+            pass
+        try:
+            import ctypes
+            ctypes.CDLL(None, use_errno=True).prctl(1, int(signal.SIGKILL), 0, 0, 0)      # PR_SET_PDEATHSIG
+            if os.getppid() == 1:
+                os._exit(71)
+        except Exception:
+            pass
         try:
             # Only first-level children arm the watchdog: a process forked while its parent has a
             # pending dump_traceback_later() dead-locks when it tries to re-arm it (the lock of the
@@ -148,10 +164,7 @@ def run_forked(fn: Callable[[Any], Any],
             for rfd, ent in list(running.items()):
                 if now - ent[3] > task_timeout:
                     idx, pid = ent[0], ent[1]
-                    try:
-                        os.kill(pid, signal.SIGKILL)
-                    except ProcessLookupError:
-                        pass
+                    _kill_tree(pid)
                     os.waitpid(pid, 0)
                     sel.unregister(rfd)
                     os.close(rfd)
@@ -162,7 +175,7 @@ def run_forked(fn: Callable[[Any], Any],
     finally:
         for rfd, ent in list(running.items()):
             try:
-                os.kill(ent[1], signal.SIGKILL)
+                _kill_tree(ent[1])
                 os.waitpid(ent[1], 0)
             except Exception:
                 pass
@@ -183,6 +196,19 @@ def run_one(fn: Callable[[Any], Any], task: Any, task_timeout: float = 600.0) ->
     for _, res in run_forked(fn, [task], jobs=1, task_timeout=task_timeout):
         return res
     return ('died', 'not run')
+
+
+def _kill_tree(pid: int) -> None:
+    """SIGKILL a child and, when it leads a process group of its own, everything it forked."""
+    try:
+        if os.getpgid(pid) == pid:
+            os.killpg(pid, signal.SIGKILL)
+    except (ProcessLookupError, PermissionError, OSError):
+        pass
+    try:
+        os.kill(pid, signal.SIGKILL)
+    except ProcessLookupError:
+        pass
 
 
 def _read(path: str) -> str:
